@@ -84,6 +84,32 @@ func pemKey(k *ecdsa.PrivateKey) []byte {
 	return pem.EncodeToMemory(&pem.Block{Type: "EC PRIVATE KEY", Bytes: b})
 }
 
+// The "host trust store" of this run: a CA of the driver's own that the SERVER side (the child
+// processes and, for the in-process endpoints, this very process) finds in its system root
+// store via SSL_CERT_FILE / SSL_CERT_DIR. It is never configured as a client CA anywhere, so a
+// client certificate issued by it chains to "a CA the host trusts", not to the configured CA.
+var (
+	hostCA      *authority
+	hostCAFile  string
+	hostCertDir string
+)
+
+// initHostTrust must run before anything in this process touches the x509 system pool.
+func initHostTrust(dir string) error {
+	if err := os.MkdirAll(filepath.Join(dir, "empty-cert-dir"), 0o755); err != nil {
+		return err
+	}
+	hostCA = newAuthority(pkix.Name{CommonName: "c17 host-trusted CA", Organization: []string{"verif host store"}}, nil, true)
+	hostCAFile = filepath.Join(dir, "host-trust-store.pem")
+	hostCertDir = filepath.Join(dir, "empty-cert-dir")
+	if err := os.WriteFile(hostCAFile, pemCert(hostCA.der), 0o644); err != nil {
+		return err
+	}
+	os.Setenv("SSL_CERT_FILE", hostCAFile)
+	os.Setenv("SSL_CERT_DIR", hostCertDir)
+	return nil
+}
+
 // pki is everything minted for one group.
 type pki struct {
 	trusted   *authority // the CA configured as --api.ca-filename / TrustedCAFile
@@ -147,7 +173,7 @@ func newPKI(dir string, rng *mrand.Rand) (*pki, error) {
 type certSpec struct {
 	Class    string   `json:"class"`            // stable name of the variant (used in signatures)
 	Present  bool     `json:"present"`          // false: the client presents no certificate at all
-	Issuer   string   `json:"issuer,omitempty"` // trusted | other | other-same-dn | self | inter-good | inter-good-nochain | inter-bad | leaf-as-ca | other+trusted-appended
+	Issuer   string   `json:"issuer,omitempty"` // trusted | other | host (a CA of the server's system trust store) | other-same-dn | self | inter-good | inter-good-nochain | inter-bad | leaf-as-ca | other+trusted-appended
 	CN       string   `json:"cn"`
 	OU       string   `json:"ou,omitempty"`
 	DNS      []string `json:"dns,omitempty"`
@@ -317,6 +343,8 @@ func (p *pki) mint(s certSpec) (*tls.Certificate, error) {
 		iss = p.trusted
 	case "other":
 		iss = p.other
+	case "host":
+		iss = hostCA
 	case "other-same-dn":
 		iss = p.otherSame
 	case "other+trusted-appended":
@@ -453,6 +481,7 @@ func chainVariants(right certSpec) []certSpec {
 	return []certSpec{
 		mk("other-ca", "other", "valid", false, ""),
 		mk("other-ca-same-dn", "other-same-dn", "valid", false, ""),
+		mk("host-trusted-ca", "host", "valid", false, ""),
 		mk("other-ca-trusted-appended", "other+trusted-appended", "valid", false, ""),
 		mk("self-signed", "self", "valid", false, ""),
 		mk("expired", "trusted", "expired", false, ""),
